@@ -4,6 +4,8 @@ package main
 
 import (
 	"context"
+	"os"
+	"path/filepath"
 	"encoding/json"
 	"fmt"
 	"go/types"
@@ -24,6 +26,14 @@ type c15Input struct {
 	Dst   string  `json:"dst"`
 	InPkg bool    `json:"inpkg"`
 	Ops   [][]any `json:"ops"`
+	// cli: the allocators as a template sees them at render time (a probe template over a generic interface)
+	Cli *c15Cli `json:"cli,omitempty"`
+}
+
+type c15Cli struct {
+	TypeParams []string `json:"typeParams"` // names of the interface's type parameters
+	Params     []string `json:"params"`     // parameter names of the probed method
+	Separate   bool     `json:"separate"`   // mocks in another package (the source package is then imported)
 }
 
 type c15 struct{}
@@ -37,6 +47,11 @@ func (c15) Generate(c *Ctx) []any {
 		maxLen = 200
 	}
 	var out []any
+	for i := 0; i < c.Budget(6, 30); i++ {
+		// (upper-case names: lower-case type parameters are the open finding C01-K2 / C14-K2)
+		tps := [][]string{{"T"}, {"Key", "Val"}, {"K", "V"}, {"ID", "E"}}[i%4]
+		out = append(out, c15Input{Dst: "example.com/dst", Cli: &c15Cli{TypeParams: tps, Params: pick(c.Rng, [][]string{{"k", "v"}, {"key", "Val"}, {"x", "http"}, {"T1", "ctx"}}), Separate: i%2 == 0}})
+	}
 	for i := 0; i < n; i++ {
 		l := 1 + c.Rng.Intn(maxLen)
 		if i%10 != 0 { // most histories short, some long
@@ -109,6 +124,9 @@ func (c15) Run(c *Ctx, raw json.RawMessage) Case {
 	var in c15Input
 	if err := json.Unmarshal(raw, &in); err != nil {
 		return Case{Oracle: fail("bad-input", "%v", err)}
+	}
+	if in.Cli != nil {
+		return c15RunCli(c, &in)
 	}
 	reg, _ := template.NewRegistry(nil, in.Dst, in.InPkg)
 	var scopes []*template.MethodScope
@@ -321,4 +339,94 @@ func varNameOf(n string) string {
 		return "arg"
 	}
 	return n
+}
+
+const c15Probe = "// Code generated by probe. DO NOT EDIT.\npackage {{.PkgName}}\n{{range $i := .Interfaces}}{{range $m := $i.Methods}}" +
+	"{{range $i.TypeParams}}TP\x1f{{$m.Name}}\x1f{{.Name}}\x1f{{$m.Scope.NameExists .Name}}\x1f{{$m.Scope.SuggestName .Name}}\x1f{{$m.Scope.AllocateName .Name}}\n{{end}}" +
+	"{{range $.Imports}}IMP\x1f{{$m.Name}}\x1f{{.Qualifier}}\x1f{{$m.Scope.NameExists .Qualifier}}\x1f{{$m.Scope.SuggestName .Qualifier}}\x1f{{$m.Scope.AllocateName .Qualifier}}\n{{end}}" +
+	"{{range $m.Params}}PAR\x1f{{$m.Name}}\x1f{{.Var.Name}}\x1f{{$m.Scope.NameExists .Var.Name}}\x1f{{$m.Scope.SuggestName .Var.Name}}\x1f{{$m.Scope.AllocateName .Var.Name}}\n{{end}}" +
+	"{{end}}{{end}}"
+
+// c15RunCli: what a template sees when it asks the scope at render time. Every name that is declared where the
+// method's code will stand – the type parameters of the receiver, the import qualifiers of the file, the
+// parameters – exists, and neither a suggestion nor an allocation returns it.
+func c15RunCli(c *Ctx, in *c15Input) Case {
+	dir, err := os.MkdirTemp(c.Work, "c15-")
+	if err != nil {
+		return Case{Oracle: fail("harness", "%v", err)}
+	}
+	defer os.RemoveAll(dir)
+	cl := in.Cli
+	var tps, targs []string
+	for i, tp := range cl.TypeParams {
+		tps = append(tps, tp+" "+[]string{"comparable", "any"}[i%2])
+		targs = append(targs, tp)
+	}
+	var ps []string
+	for i, p := range cl.Params {
+		ps = append(ps, p+" "+[]string{targs[0], "*http.Request", targs[len(targs)-1], "string"}[i%4])
+	}
+	src := fmt.Sprintf("package store\n\nimport \"net/http\"\n\nvar _ http.Request\n\ntype Cache[%s] interface {\n\tGet(%s) (%s, bool)\n\tPut(%s) error\n}\n",
+		strings.Join(tps, ", "), strings.Join(ps, ", "), targs[len(targs)-1], strings.Join(ps, ", "))
+	cfg := "template: file://" + filepath.Join(dir, "probe.templ") + "\nrequire-template-schema-exists: false\nformatter: noop\nforce-file-write: true\nfilename: scope_probe.txt\n"
+	if cl.Separate {
+		cfg += "dir: " + filepath.Join(dir, "mocks") + "\npkgname: mocks\n"
+	}
+	cfg += "packages:\n  example.com/m/store:\n    interfaces:\n      Cache:\n"
+	files := map[string]string{"go.mod": goModText, "store/store.go": src, "probe.templ": c15Probe, ".mockery.yml": cfg}
+	if err := writeFiles(dir, files); err != nil {
+		return Case{Oracle: fail("harness", "%v", err)}
+	}
+	tags := []string{"cli-render-time"}
+	if out, err := runGo(dir, "build", "./..."); err != nil {
+		return Case{Oracle: fail("harness-source", "generated source does not compile: %s", lastLines(out, 4)), NoModel: true, Tags: tags}
+	}
+	res := c.runMockery(dir, nil, nil)
+	if res.Exit != 0 {
+		return Case{Impl: map[string]any{"exit": res.Exit}, Oracle: fail("mockery-failed", "%s %s", formatErrLine(res), lastLines(res.Stderr, 2)), NoModel: true, Tags: tags}
+	}
+	outPath := filepath.Join(dir, "store", "scope_probe.txt")
+	if cl.Separate {
+		outPath = filepath.Join(dir, "mocks", "scope_probe.txt")
+	}
+	b, err := os.ReadFile(outPath)
+	if err != nil {
+		return Case{Oracle: fail("no-output", "%v", err), NoModel: true, Tags: tags}
+	}
+	or := Oracle{OK: true}
+	lines := 0
+	// per method: names declared around the method's code
+	declared := map[string]map[string]bool{}
+	type row struct{ kind, method, name, exists, suggest, alloc string }
+	var rows []row
+	for _, l := range strings.Split(string(b), "\n") {
+		f := strings.Split(l, "\x1f")
+		if len(f) != 6 {
+			continue
+		}
+		lines++
+		rows = append(rows, row{f[0], f[1], f[2], f[3], f[4], f[5]})
+		if declared[f[1]] == nil {
+			declared[f[1]] = map[string]bool{}
+		}
+		declared[f[1]][f[2]] = true
+	}
+	for _, r := range rows {
+		if !or.OK {
+			break
+		}
+		what := map[string]string{"TP": "type parameter of the receiver", "IMP": "import qualifier of the file", "PAR": "parameter"}[r.kind]
+		switch {
+		case r.exists != "true":
+			or = fail("declared-name-not-visible", "method %s, at render time: NameExists %q is %s, but %q is a %s", r.method, r.name, r.exists, r.name, what)
+		case declared[r.method][r.suggest]:
+			or = fail("suggest-collision", "method %s, at render time: SuggestName %q returned %q, which is declared around the method (%s)", r.method, r.name, r.suggest, what)
+		case declared[r.method][r.alloc]:
+			or = fail("alloc-collision", "method %s, at render time: AllocateName %q returned %q, which is declared around the method (%s)", r.method, r.name, r.alloc, what)
+		}
+	}
+	if lines == 0 {
+		or = fail("no-output", "the probe printed nothing")
+	}
+	return Case{Impl: map[string]any{"rows": lines}, Oracle: or, Nontrivial: true, NoModel: true, Tags: tags}
 }
